@@ -207,7 +207,7 @@ def main():
         'hooks': {
             'guard': 'cfg(wac_verif)',
             'enable': 'RUSTFLAGS="--cfg wac_verif" (used only by the native replay crate /verif/replay; the MIR that is verified is dumped WITHOUT the flag)',
-            'baseline_off_cmd': 'cd /repo && cargo test --workspace --no-fail-fast --offline',
+            'baseline_off_cmd': 'cd /repo && env -u RUST_BACKTRACE cargo test --workspace --no-fail-fast --offline',
             'source_commits': HOOK_COMMITS,
             'add_only': True,
         },
